@@ -99,14 +99,21 @@ class Persistence:
 
         async def cancel_save() -> None:
             """Cancel the save task."""
+            current_task = asyncio.current_task()
+            # The calling task may already be handling a cancellation, e.g. when
+            # the gateway context is left because the session was cancelled.
+            cancelling = current_task.cancelling() if current_task is not None else 0
             task.cancel()
             try:
                 await task
             except asyncio.CancelledError:
                 # The save task was cancelled before it started running. Only
-                # propagate the cancellation if this task itself is cancelled.
-                current_task = asyncio.current_task()
-                if current_task is not None and current_task.cancelling():
+                # propagate the cancellation if this task itself was cancelled
+                # while waiting.
+                if not task.cancelled() or (
+                    current_task is not None
+                    and current_task.cancelling() > cancelling
+                ):
                     raise
 
         self._cancel_save = cancel_save
